@@ -116,6 +116,20 @@ func scheduleHistory(rng *rand.Rand, out *Out) {
 	}
 	out.Oracle(synced.Frontier().Hash == fr.Hash, "schedule-second-node-accepts-chain", M{"frontier": fmt.Sprint(fr.Identifier())})
 
+	// every momentum of the chain the node built and accepted was produced by the pillar that the reference election
+	// (computed from the ledger as of the tick's proof momentum) names for its slot — whatever the frontier was at the
+	// moment the node itself computed that election
+	if st := nd.Ch.GetFrontierMomentumStore(); true {
+		for hgt := uint64(2); hgt <= fr.Height; hgt++ {
+			m, err := st.GetMomentumByHeight(hgt)
+			if err != nil || m == nil {
+				continue
+			}
+			ref := l.refProducer(int64(m.TimestampUnix))
+			out.Oracle(ref != nil && m.Producer() == *ref, "chain-momentum-produced-by-reference-elected-pillar",
+				M{"height": U64(hgt), "ts": I64(int64(m.TimestampUnix)), "producer": m.Producer().String(), "node": tag})
+		}
+	}
 	// slots: every slot start from before genesis to two ticks past the frontier, plus off-grid instants
 	var slots []int64
 	for ts := genesisTs - 30; ts <= int64(fr.TimestampUnix)+700; ts += 10 {
